@@ -221,6 +221,36 @@ def extract_tokens():
     return kinds, kws
 
 
+def constant_insertion_sites():
+    """names of the functions of compiler.rs whose body calls `.add_constant(` - the constant-pool limit is checked
+    in make_constant only, so every insertion has to go through it"""
+    toks = rustlex.lex(read("compiler.rs"))
+    sites = []
+    i = 0
+    while i < len(toks):
+        if toks[i].text == "fn" and i + 1 < len(toks) and toks[i + 1].kind == "id":
+            name = toks[i + 1].text
+            j = i + 2
+            depth = 0
+            # find the body `{` (skip the parameter list / return type); a declaration without body ends at `;`
+            while j < len(toks) and not (toks[j].text == "{" and depth == 0) and not (toks[j].text == ";" and depth == 0):
+                if toks[j].text in ("(", "[", "<"):
+                    depth += 1 if toks[j].text != "<" else 0
+                elif toks[j].text in (")", "]"):
+                    depth -= 1
+                j += 1
+            if j < len(toks) and toks[j].text == "{":
+                e = match_group(toks, j)
+                n = len(rustlex.find_all_seq(toks, [".", "add_constant", "("], j, e))
+                # nested fns are visited by the outer loop as well; count only direct text here
+                if n:
+                    sites.append("%s:%d" % (name, n))
+                i = j + 1
+                continue
+        i += 1
+    return sites
+
+
 def tkind_ctor(name):
     return "T" + name.rstrip("_")
 
@@ -239,6 +269,8 @@ def gen_rules(man):
     man["c03_rules_declared"] = declared
     man["c03_precedences"] = precs
     man["c03_rules_unknown"] = unknown
+    sites = constant_insertion_sites()
+    man["c03_constant_insertions"] = sites
     L = ["(* GENERATED by translator/translate_c03.py from compiler.rs (const RULES, enum Precedence) - do not edit *)",
          "From Coq Require Import List String.", "From YV Require Import Scanner ParserRules.", "Import ListNotations.",
          "Open Scope string_scope.", "",
@@ -250,6 +282,8 @@ def gen_rules(man):
          "Definition precedence_names_gen : list string := [%s]." % "; ".join(coq_str(p) for p in precs), "",
          "(* the `// Name` comment of every entry, in order *)",
          "Definition rules_gen_names : list string := [%s]." % "; ".join(coq_str(n) for n, _, _, _ in rows), "",
+         "(* functions of compiler.rs that call Chunk::add_constant directly (name:number of calls) *)",
+         "Definition constant_insertions_gen : list string := [%s]." % "; ".join(coq_str(x) for x in sites), "",
          "Definition rules_gen : list rule := ["]
     if not unknown:
         ents = []
